@@ -380,7 +380,7 @@ theorem applyPostFilter_agree (parent : Component) (fold : Fold) (f : IRFilter) 
   unfold applyPostFilter
   split
   · simp only [applyFilter_agree hA parent fold.fromVid f _ h]
-  · rfl
+  · simp only [applyFilter_agree hA parent fold.fromVid f _ h]
   · rfl
 
 
